@@ -36,6 +36,8 @@ Protocol (one case = one schema + one Chaperone):
                                          attribute is re-assigned, not edited in place -> the list
   cochap reg:<fn>|set:<fn>|del           register_co_chaperone(S, fn) / co_chaperones[S] = fn / co_chaperones.pop(S) on the
                                          addressed instance, for the CURRENT schema class
+  cochap regbase:<fn>|regsub:<fn>        register_co_chaperone for the base class / for a fresh subclass of the current schema
+                                         class: co-chaperones are looked up by the exact class, so folds for S are untouched
   misfold <fn>|-                         assign the public attribute on_misfold (fn: ok rv r0 falsy; - = None)
   newh <ctor> <cofn|-> <mfn|->           Chaperone(strategies=…, co_chaperones={S: fn}, on_misfold=cb)
   inner fold|foldx <hex> none            inserted by run_impl after a fold during which a RE-ENTRANT user callback (`re`) folded
@@ -1107,6 +1109,12 @@ class C11(Prop):
                     elif how == "set" and fn in CO_FNS:
                         c.co_chaperones[S] = make_co(fn, [c, S])
                         co_own[i][spec] = fn
+                    elif how == "regbase" and fn in CO_FNS:
+                        # registered for the BASE class of the schema (an ancestor in its MRO): not for this class
+                        c.register_co_chaperone(self.factory.base, make_co(fn, [c, S]))
+                    elif how == "regsub" and fn in CO_FNS:
+                        # registered for a SUBCLASS of the schema: not for this class either
+                        c.register_co_chaperone(type("Narrowed", (S,), {}), make_co(fn, [c, S]))
                     elif how == "del" and not fn:
                         c.co_chaperones.pop(S, None)
                         co_own[i].pop(spec, None)
@@ -1888,7 +1896,9 @@ class C11(Prop):
                             lines.append(f"use {rng.randrange(n_inst)}")
                 if hooked and rng.random() < 0.5:
                     y = rng.random()
-                    if y < 0.45:
+                    if y < 0.1:
+                        lines.append("cochap " + rng.choice(["regbase:", "regsub:"]) + rng.choice(["redact", "upper", "empty", "rv", "brace"]))
+                    elif y < 0.45:
                         lines.append("cochap " + rng.choice(["reg:", "reg:", "set:"]) + self.rand_co(rng, False))
                     elif y < 0.55:
                         lines.append("cochap del")
@@ -2086,6 +2096,15 @@ class C11(Prop):
                      "cochap del", "misfold -", f"foldx {hexs(clean)} none", f"fold {hexs(bad)} none",
                      f"heal 1 1/10 {hexs(clean)}", f"cochap set:{co}", f"fold {hexs(prose3)} s", f"foldx {hexs(prose3)} s", "stats"]
                 hook_cases.append({"lines": L, "note": "callbacks registered on one of several instances, per schema class; unregistered again"})
+        for how in ["regbase", "regsub"]:
+            for co in ["redact", "rv", "empty"]:
+                clean, prose3, bad = '{"a": 12, "b": "x"}', 'so {"a": 34} ok', "nope"
+                L = [f"schema {spec}", "new omit", f"cochap {how}:{co}", "misfold ok"]
+                for raw in [clean, prose3, bad]:
+                    L += [f"fold {hexs(raw)} omit", f"foldx {hexs(raw)} omit"]
+                L += [f"heal 1 1/10 {hexs(bad)},{hexs(clean)}", "cochap reg:brace", f"foldx {hexs(prose3)} none", "cochap del",
+                      f"fold {hexs(clean)} none", "stats"]
+                hook_cases.append({"lines": L, "note": "a co-chaperone registered for an ancestor / a subclass of the schema class is not one for the class"})
         for co, mf in [("re", "-"), ("-", "re"), ("re", "re"), ("re", "ok"), ("redact", "re"), ("rs", "re"), ("re", "rv")]:
             for st in ["none", "le"]:
                 # RE-ENTRANT callbacks: the co-chaperone calls fold_enhanced, on_misfold calls fold, on the instance they
